@@ -1,0 +1,13 @@
+//go:build verif
+
+package ratelimiter
+
+// VerifGate, when set by a verification harness, is called at scheduling
+// points (before lock acquisitions) so that interleavings can be imposed.
+var VerifGate func(point string)
+
+func vgate(point string) {
+	if g := VerifGate; g != nil {
+		g(point)
+	}
+}
